@@ -42,7 +42,15 @@ func VerifC19ExporterQueue() {
 		case 0:
 			n := vNondetInt("items")
 			vAssume(n >= 0 && n <= 1<<40)
-			if q.Offer(context.Background(), &vc19QReq{items: n}) != nil {
+			// the producer's context may already have ended: whether the request is counted as refused must
+			// only depend on whether it entered the queue
+			octx := context.Background()
+			if vChoice("producer-context-ended", 2) == 1 {
+				c, cancel := context.WithCancel(octx)
+				cancel()
+				octx = c
+			}
+			if q.Offer(octx, &vc19QReq{items: n}) != nil {
 				failedItems += int64(n)
 				vReach("enqueue-failed")
 			} else if n > 0 { // an empty request is acknowledged without being queued
